@@ -82,6 +82,22 @@ pub fn replay_case(c: &J) -> Result<(), String> {
     let f = fmts::by_name(c["format"].as_str().unwrap_or("ascii"));
     let expect = V::from_json(&c["value"]).canon();
     let s = c["input"].as_str().unwrap_or("");
+    if c["op"].as_str() == Some("spacing_batch") {
+        let inputs: Vec<String> = c["inputs"].as_array().map(|a| a.iter().filter_map(|x| x.as_str().map(String::from)).collect()).unwrap_or_default();
+        let rs = f.e.parse_multi(inputs.iter().map(|x| x.as_str()));
+        for (i, r) in rs.into_iter().enumerate() {
+            match r {
+                Ok(n) if cv_of(&n) == expect => {}
+                Ok(n) => return Err(format!("position {i}: {:?} parses to {}", inputs[i], show_cv(&cv_of(&n)))),
+                Err(e) => {
+                    if check(&f, Pipe::Enum, &inputs[i], &expect).is_ok() {
+                        return Err(format!("position {i}: {:?} is rejected in the batch ({e}) but accepted alone", inputs[i]));
+                    }
+                }
+            }
+        }
+        return Ok(());
+    }
     match c["pipeline"].as_str() {
         Some("LexFold") => check(&f, Pipe::LexFold, s, &expect),
         Some("LexRoutes") => ops::lexical_routes_agree(&f, s),
@@ -178,6 +194,34 @@ pub fn run(run: &Run) {
                         }
                         Ok(()) => {}
                     }
+                }
+            }
+            // all spacings of this value as ONE batch through the reused parser of parse_multi (many of them
+            // have the same length and differ only in where the blank is): every position must be the value
+            if toks.len() <= 40 {
+                run.eval(ss.len() as u64);
+                let batch: Vec<&str> = ss.iter().map(|x| x.as_str()).collect();
+                match quiet_catch(AssertUnwindSafe(|| f.e.parse_multi(batch.clone()).into_iter().map(|r| r.map(|n| cv_of(&n)).map_err(|e| e.to_string())).collect::<Vec<_>>())) {
+                    Ok(rs) => {
+                        for (i, r) in rs.iter().enumerate() {
+                            let bad = match r {
+                                Ok(cv) if *cv == expect => None,
+                                Ok(cv) => Some(format!("position {i} of parse_multi over all spacings of one value: {:?} parses to {} instead of {}", ss[i], show_cv(cv), show_cv(&expect))),
+                                Err(e) => Some(format!("position {i} of parse_multi over all spacings of one value: {:?} is rejected ({e}); it means {}", ss[i], show_cv(&expect))),
+                            };
+                            if let Some(msg) = bad {
+                                // the same spacing parsed alone decides whether this is the batch's doing
+                                if check(&f, Pipe::Enum, &ss[i], &expect).is_ok() {
+                                    run.violation(&format!("[{}] {}", f.name, msg), json!({"op": "spacing_batch", "format": f.name, "inputs": ss[..=i].to_vec(), "value": v.to_json()}), &feats);
+                                }
+                                break;
+                            }
+                        }
+                        if rs.len() != ss.len() {
+                            run.violation(&format!("[{}] parse_multi returns {} results for {} inputs", f.name, rs.len(), ss.len()), json!({"op": "spacing_batch", "format": f.name, "inputs": ss, "value": v.to_json()}), &feats);
+                        }
+                    }
+                    Err(p) => run.violation(&format!("[{}] parse_multi over all spacings of {} panics: {p}", f.name, v.show()), json!({"op": "spacing_batch", "format": f.name, "inputs": ss, "value": v.to_json()}), &feats),
                 }
             }
             // other whitespace characters: lexical pipeline only, and the macro path
